@@ -6,8 +6,10 @@
 cd "$(dirname "$0")/.."
 . ./env.sh
 for id in "$@"; do
-  mkdir -p refactors/$id
-  cp /tmp/refout/$id/patch.diff /tmp/refout/$id/notes.md refactors/$id/ || { echo "$id: deliverables missing"; continue; }
+  if [ ! -f refactors/$id/patch.diff ]; then
+    mkdir -p refactors/$id
+    cp /tmp/refout/$id/patch.diff /tmp/refout/$id/notes.md refactors/$id/ || { echo "$id: deliverables missing"; continue; }
+  fi
   git -C /repo worktree remove --force /tmp/refw/$id 2>/dev/null
   tmp=$(mktemp -d /tmp/j5ref.XXXXXX)
   rsync -a --exclude .git /repo/ "$tmp/repo/"
